@@ -745,6 +745,22 @@ func c13Prepared(c *core.Ctx) {
 			}
 		}
 		c.Check(R, "webtransport.NewPreparedMessage/own-copy", np.Pos(), ok, "pm.data is re-pointed at a sub-slice of the prepared frame")
+		// the tail of the eager frame is the payload copy only if that frame is ONE frame: only the isServer fast path of WriteMessage guarantees it
+		okKey := false
+		for _, cl := range np.CallsTo("webtransport.(*PreparedMessage).frame") {
+			if lit, isL := ast.Unparen(cl.Arg(0)).(*ast.CompositeLit); isL {
+				for _, el := range lit.Elts {
+					if kv, isKV := el.(*ast.KeyValueExpr); isKV {
+						if id, isI := kv.Key.(*ast.Ident); isI && id.Name == "isServer" {
+							if v, isC := core.ConstBool(np.Info(), kv.Value); isC && v {
+								okKey = true
+							}
+						}
+					}
+				}
+			}
+		}
+		c.Check(R, "webtransport.NewPreparedMessage/eager-frame-is-the-server-frame", np.Pos(), okKey, "the frame whose tail becomes pm.data is built with prepareKey{isServer: true} — the single-frame path; a multi-frame rendering would leave interior frame headers inside pm.data (corrupted payload for every later rendering)")
 	}
 }
 
